@@ -7,6 +7,7 @@ its (in)variance, the fetcher's integrity check with `urlopen` stubbed — the n
 
 Structure as harness/c19.py: impl_line / PREDICATES / run / replay.
 """
+import contextlib
 import hashlib
 import io
 import json
@@ -150,7 +151,8 @@ def _impl(t):
 def impl_line(line):
     t = line.split(" ")
     try:
-        return _impl(t)
+        with contextlib.redirect_stdout(io.StringIO()):   # Script.parse prints on a length mismatch
+            return _impl(t)
     except UnknownOp:
         raise
     except Exception:
@@ -281,7 +283,8 @@ PREDICATES = {"tx_roundtrip": p_tx_roundtrip, "script_roundtrip": p_script_round
 
 def eval_pred(kind, case):
     try:
-        return PREDICATES[kind](case)
+        with contextlib.redirect_stdout(io.StringIO()):
+            return PREDICATES[kind](case)
     except Exception as e:
         return False, "raised " + type(e).__name__, "no exception"
 
@@ -474,7 +477,8 @@ def run(ctx):
         except Exception:
             continue
         streams.append(("built", raw + rbytes(rng, rng.choice([0, 0, 3]))))
-        preds.append(("parse_serialize", {"b": xb(raw)}))
+        if tx["segwit"] or tx["ins"]:      # N04d: a zero-input legacy serialisation is not a canonical encoding
+            preds.append(("parse_serialize", {"b": xb(raw)}))
         if len(raw) < 400:
             small.append(raw)
     rng.shuffle(small)
